@@ -448,7 +448,6 @@ where
     Ok(dst.splice(range, replace_with))
 }
 
-/// Cache key for uniquely identifying a request.
 /// Verification hooks, compiled only by the Kani compiler (`cfg(kani)`): thin
 /// public wrappers around private functions so that harnesses outside the
 /// crate can reach them.
@@ -475,6 +474,7 @@ impl<Endpoint: Ord + Clone> BlockHandler<Endpoint> {
     }
 }
 
+/// Cache key for uniquely identifying a request.
 #[derive(Ord, PartialOrd, Eq, PartialEq, Clone)]
 pub struct RequestCacheKey<Endpoint: Ord + Clone> {
     /// Request type as an integer to make it easy to derive Ord.
